@@ -5,7 +5,7 @@ from ..harness import scn, gen, obs as O, pyeval
 from . import base_scn
 
 pid = 'C12'
-gen_modules = ['tr_state', 'tr_validators', 'tr_has_patcher', 'tr_contracts', 'tr_dispatch', 'tr_decorators', 'tr_pin_contracts', 'tr_rest_validators', 'tr_rest_patcher', 'tr_rest_state', 'tr_rest_dispatch', 'tr_rest_contractsconst']
+gen_modules = ['tr_state', 'tr_validators', 'tr_has_patcher', 'tr_contracts', 'tr_dispatch', 'tr_decorators', 'tr_pin_contracts', 'tr_rest_validators', 'tr_rest_patcher', 'tr_rest_state', 'tr_rest_dispatch', 'tr_rest_contractsconst', 'tr_rest_decorators']
 model_targets = ['Sem/Scenario.v']
 hand_modelled = ['functools.update_wrapper on the Dispatch object: not modelled']
 explanation = ('Theorems on the generated Dispatch.__call__ for every registry and function table; correspondence + monitor over random registries '
